@@ -10,9 +10,9 @@ import (
 )
 
 func init() {
-	register(&Rule{ID: "R1", Title: "wg-pair: WaitGroup.Add before go is matched by exactly one Done on every exit of the goroutine", Min: 4, Run: ruleR1})
-	register(&Rule{ID: "R17", Title: "sender-pair: every RegisterSender handle reaches one goroutine that calls Done on all exits", Min: 15, Run: ruleR17})
-	register(&Rule{ID: "R19", Title: "subscription-pair: every Subscribe is Unsubscribed on all exits of its owner", Min: 6, Run: ruleR19})
+	register(&Rule{ID: "R1", Title: "wg-pair: WaitGroup.Add before go is matched by exactly one Done on every exit of the goroutine", Min: 3, Run: ruleR1})
+	register(&Rule{ID: "R17", Title: "sender-pair: every RegisterSender handle reaches one goroutine that calls Done on all exits", Min: 10, Run: ruleR17})
+	register(&Rule{ID: "R19", Title: "subscription-pair: every Subscribe is Unsubscribed on all exits of its owner", Min: 4, Run: ruleR19})
 }
 
 // callsIn lists calls at the top level of a CFG node (no nested literals).
@@ -59,6 +59,56 @@ func nodeHasCall(p *Prog, n ast.Node, pred func(*ast.CallExpr) bool) bool {
 	for _, c := range callsIn(n) {
 		if pred(c) {
 			return true
+		}
+	}
+	return false
+}
+
+// releasesVar: CFG node n of function f releases the tracked variable tv — directly (rel) or by
+// handing it to a same-package function that releases its parameter on every exit (depth <= 2).
+func releasesVar(p *Prog, f *FuncInfo, n ast.Node, tv *types.Var, rel func(fi *FuncInfo, call *ast.CallExpr, v *types.Var) bool, depth int) bool {
+	if n == nil || tv == nil {
+		return false
+	}
+	if nodeHasCall(p, n, func(call *ast.CallExpr) bool { return rel(f, call, tv) }) {
+		return true
+	}
+	if depth >= 2 {
+		return false
+	}
+	if _, isGo := n.(*ast.GoStmt); isGo {
+		return false
+	}
+	in := info(f)
+	var calls []*ast.CallExpr
+	if d, ok := n.(*ast.DeferStmt); ok {
+		calls = []*ast.CallExpr{d.Call}
+	} else {
+		calls = callsIn(n)
+	}
+	for _, call := range calls {
+		fn := callee(in, call)
+		cf := p.byObj[fn]
+		if cf == nil || fn == nil {
+			continue
+		}
+		if _, isIface := recvUnderlyingInterface(fn); isIface {
+			continue
+		}
+		for i, a := range call.Args {
+			id, ok := unparen(a).(*ast.Ident)
+			if !ok || objOf(in, id) != types.Object(tv) {
+				continue
+			}
+			pv := paramAt(cf, i)
+			if pv == nil {
+				continue
+			}
+			g := p.Graph(cf)
+			bad := g.MustPassBeforeExit(g.Entry(), true, func(m ast.Node) bool { return releasesVar(p, cf, m, pv, rel, depth+1) })
+			if len(bad) == 0 {
+				return true
+			}
 		}
 	}
 	return false
@@ -385,25 +435,24 @@ func ruleR19(c *Ctx) {
 				return true
 			}
 			// owner body: f itself if it unsubscribes, else the unique nested literal that uses sv
-			isUnsub := func(bin *types.Info) func(*ast.CallExpr) bool {
-				return func(uc *ast.CallExpr) bool {
-					if !isTracerMethod(bin, uc, "Unsubscribe") || len(uc.Args) != 1 {
-						return false
-					}
-					v, _ := objOf(bin, uc.Args[0]).(*types.Var)
-					return v == sv
+			relUnsub := func(fi *FuncInfo, uc *ast.CallExpr, v *types.Var) bool {
+				bin := info(fi)
+				if !isTracerMethod(bin, uc, "Unsubscribe") || len(uc.Args) != 1 {
+					return false
 				}
+				vv, _ := objOf(bin, uc.Args[0]).(*types.Var)
+				return vv == v
 			}
 			g := p.Graph(f)
 			spt, _ := g.PointOf(call)
 			selfHas := false
 			for _, pt := range g.AllPoints() {
-				if nodeHasCall(p, pt.Node(), isUnsub(in)) {
+				if releasesVar(p, f, pt.Node(), sv, relUnsub, 0) {
 					selfHas = true
 				}
 			}
 			if selfHas {
-				bad := g.MustPassBeforeExit(spt, false, func(n ast.Node) bool { return nodeHasCall(p, n, isUnsub(in)) })
+				bad := g.MustPassBeforeExit(spt, false, func(n ast.Node) bool { return releasesVar(p, f, n, sv, relUnsub, 0) })
 				c.Check(len(bad) == 0, f, call, desc, "Unsubscribe on every path from the subscription to the exit of "+f.QName(), ifEmpty(witnessLines(g, bad), "all exits pass Unsubscribe (defer or explicit)"))
 				return true
 			}
@@ -431,7 +480,7 @@ func ruleR19(c *Ctx) {
 			}
 			o := owners[0]
 			og := p.Graph(o)
-			bad := og.MustPassBeforeExit(og.Entry(), true, func(n ast.Node) bool { return nodeHasCall(p, n, isUnsub(info(o))) })
+			bad := og.MustPassBeforeExit(og.Entry(), true, func(n ast.Node) bool { return releasesVar(p, o, n, sv, relUnsub, 0) })
 			c.Check(len(bad) == 0, f, call, desc, "closure "+o.QName()+" owns the subscription and must Unsubscribe on every exit", ifEmpty(witnessLines(og, bad), "all exits of the owning closure pass Unsubscribe"))
 			return true
 		})
